@@ -107,6 +107,11 @@ func (r *callResolver) callees(ci ssa.CallInstruction) []*ssa.Function {
 						}
 					}
 				}
+				if fn.Synthetic != "" {
+					// method promoted from an embedded interface (namedColumn embeds column.Column): the wrapper
+					// only re-dispatches on the embedded interface value, whose implementers are already listed.
+					continue
+				}
 				out = appendUnique(out, fn)
 			}
 		}
